@@ -5,8 +5,8 @@ props=[json.loads(l) for l in open('/verif/properties.jsonl')]
 BFS="explicit-state BFS of the real implementation over bounded op histories"
 LS="explicit-state BFS of the (real Vt, reference terminal) product in lock-step; reference-model oracle on every transition + hidden state via feature hook"
 T={
-"C01":("Bounded exhaustive exploration of the real Vt in an overflow-checks + debug-assertions build: all op histories up to the depth bound over ~90 ops (every function, truncated sequences, resizes, every Changes treatment) on 1x1..4x3 screens x scrollback limits; at every state all accessors, TextCollector, and an extreme-parameter layer (0/1/65535/65536/1e11 for every CSI final, 40 params, 9 sub-params, truncated SGR, all C1) followed by ordinary ops; plus every Unicode scalar from every parser state. Oracle: no panic, watchdog, per-call allocation envelope.",
-       "Running time is only judged against a coarse envelope (5 s per call, watchdog, allocation bytes); screens bounded.", BFS+" + exhaustive scalar sweep; no-panic/work-envelope oracle"),
+"C01":("Bounded exhaustive exploration of the real Vt in an overflow-checks + debug-assertions build: all op histories up to the depth bound over ~90 ops (every function, truncated sequences, resizes, every Changes treatment) on 1x1..4x3 screens x scrollback limits; at every state all accessors, TextCollector, and an extreme-parameter layer (0/1/65535/65536/1e11 for every CSI final, 40 params, 9 sub-params, truncated SGR, all C1) followed by ordinary ops; two deeper sub-alphabet runs (save/alternate-screen/resize chains to depth 6-8; origin-mode/margins/save chains to depth 5-7) with every accessor incl. dump() at every state; plus every Unicode scalar from every parser state. Oracle: no panic, CPU-time watchdog, per-call allocation envelope.",
+       "Running time is only judged against a coarse envelope (60 s of CPU per job, allocation bytes per call); screens bounded.", BFS+" + exhaustive scalar sweep; no-panic/work-envelope oracle"),
 "C02":("Bounded exhaustive exploration of the real Vt: every op history up to the depth bound over a ~85-op alphabet (all functions, modes, truncated sequences, resizes, feed/feed_str/drop variants) on 1x1..4x3 screens and 3-6 scrollback limits, plus a deeper alt-screen/resize sub-alphabet; all geometry invariants evaluated after every single call.",
        "Screens and depths are bounded as reported in the evidence; dedup relies on derived Debug covering all state and a 128-bit hash.", BFS+", invariant oracle after every call"),
 "C03":("Every (parser state x parameter/intermediate background) x every listed Unicode scalar compared with a table-driven reference parser transcribed from Williams' diagram (+ the four stated deviations); every CSI final x prefix x 44 parameter shapes x intermediates in 7- and 8-bit form and every ESC final x intermediates, each after a parameter-heavy sequence; ESC Fe vs C1 twins from every background; product BFS of (real Parser, reference) over class-representative tokens for memorylessness.",
@@ -19,7 +19,7 @@ T={
        "Wrap marks after scrolls adopted; unlimited scrollback (+ limit 0 config).", LS),
 "C07":("Lock-step BFS from a completely filled (all rows soft-wrapped) and a blank screen: ED/EL x selectors, ECH/ICH/DCH x counts incl. 65535, DECALN, cursor on every cell and in the wrap-pending column, three pens; every cell, the exact cursor and specified wrap marks compared.",
        "Extents computed from the reported column (R2); marks after EL1/ED1 on the cursor row, ICH, DECALN adopted.", LS),
-"C08":("Lock-step BFS to FIXPOINT over the pen space with every SGR code as its own sequence (both colour encodings, 7/8-bit, unknown codes) followed by a print and an erase; all ordered pairs/triples of 24 representative parameters in one vs separate sequences; all 256 indices x fg/bg x both forms. Hidden pen and both cells (nine accessors) compared.",
+"C08":("Lock-step BFS to FIXPOINT over the pen space with every SGR code as its own sequence (both colour encodings, 7/8-bit, unknown codes) followed by a print and an erase; all ordered pairs/triples of 24 representative parameters in one vs separate sequences; all 256 indices x fg/bg x both forms; lock-step BFS over every way of blanking cells (EL/ED/ECH/ICH/DCH/IL/DL/SU/SD/LF/RI/NEL, wrap scrolls, alternate-screen entry) under three pens. Hidden pen and the printed/blanked cells (nine accessors) compared.",
        "Malformed colour forms and components > 255 unspecified.", LS+"; pen space closed to fixpoint"),
 "C16":("BFS over histories mixing primary edits, entry/exit by 47/1047/1049, everything executable on the alternate screen and resizes; frame oracle (blank alt screen in current pen, text() constant, primary lines() identical or re-wrapped-not-altered, 1049 restores cursor) + lock-step run of the buffer switches against the reference terminal.",
        "Showing screen read through the verif hook; relational clause only for unlimited scrollback.", BFS+", frame/relational oracle + lock-step reference model"),
@@ -27,11 +27,11 @@ T={
        "R6: DECSTR/RIS discard saved contexts; after a resize only 'inside the screen' is required of a restored position.", LS),
 "C18":("(a) every pair of widths 1..100 and triple of widths 1..26: tab stops after the resize chain equal those of a fresh terminal (hook + HT scan); (b) lock-step BFS over CHA to boundary columns, HTS/CTC/TBC, HT/CHT/CBT counts, wrap-pending, resizes to 7 widths against a BTreeSet model.",
        "Stop in column 0 unobservable; set/clear from the wrap-pending column unspecified (pruned).", "exhaustive width-chain enumeration + "+LS),
-"C09":("Exhaustive enumeration of all texts of <=k lines with line lengths 0..m over small alphabets (incl. non-ASCII, spaces), each fed whole and per char to every width 1..W x height 1..H; text() and TextUnwrapper(lines()) must equal the input lines.",
+"C09":("Exhaustive enumeration of all texts of <=k lines with line lengths 0..m over small alphabets (incl. non-ASCII, spaces), each fed whole and per char to every width 1..W x height 1..H; text() and TextUnwrapper(lines()) must equal the input lines; plus a wrapped line containing each of the 1.1 M printable Unicode scalars.",
        "Characters limited to listed alphabets; lengths bounded (cover len == k*cols for every width).", "exhaustive input enumeration against the real implementation, exact expected-value oracle"),
 "C10":("All states reachable by an editing alphabet up to the depth bound are used as seeds; from each, every chain of <=2 resizes over 10 sizes; each resize judged by a relational oracle on logical lines and the cursor's logical position.",
        "Unlimited scrollback, primary screen, sizes <= 4x3.", BFS+" + exhaustive resize chains, relational oracle"),
-"C11":("BFS over op histories (modes, margins, save/restore, both screens, edits, SGR, tabs, charsets, resets, 14 truncated sequences, resizes); at every distinct state dump() is fed to a fresh terminal and the pair is compared immediately, after each of ~60 probes and after every feed op of the alphabet. Failing states are KNOWN-FINDINGs only when black-box measurements place them in one of three listed classes.",
+"C11":("BFS over op histories (modes, margins, save/restore, both screens, edits, SGR, tabs, charsets, resets, 14 truncated sequences, resizes); at every distinct state dump() is fed to a fresh terminal and the pair is compared immediately, after each of 72 probes and after every feed op of the alphabet; plus every pen encoding (all 256 indices, RGB, attributes) placed in cells, the current pen and both saved contexts. Failing states are KNOWN-FINDINGs only when black-box measurements place them in one of three listed classes.",
        "Observational equivalence through the public API; classes KF-C11-a/b/c are excused as recorded in known_findings.json.", "explicit-state BFS of the implementation + differential twin (original vs restored) with probe battery"),
 "C12":("All token strings of <=k tokens over 32 complete texts/sequences; for each, ALL 2^(n-1) cut patterns are covered by a cut-DAG (position x implementation fingerprint) and feed() per char; every final node compared (screen, cursor, dump, lines() when unlimited) with the single-call result.",
        "DAG merging is sound because the future of a call boundary depends only on the implementation state (fingerprint of Debug).", "explicit-state exploration of the cut-DAG of the real implementation, differential oracle"),
@@ -43,7 +43,7 @@ T={
        "Cells = char + pen (not wrap marks).", BFS+", before/after differential oracle"),
 "C19":("Same seed exploration as C11; at every state ESC c is applied and the result compared with a fresh terminal (all of lines(), cursor, cursor-key mode, dump) immediately, after each probe and after every feed op; also ESC c delivered per char.",
        "Observational equivalence + dump equality.", "explicit-state BFS of the implementation + differential twin (reset vs fresh) with probe battery"),
-"C20":("Every reachable seed state (all-functions alphabet) x ~9.6k (quick) / ~100k (thorough) inert inputs enumerated exhaustively by class: no changed lines, identical lines()/cursor/dump, following char handled from ground, hidden state identical; bare Parser dispatches nothing and ends in Ground.",
+"C20":("Every reachable seed state (all-functions alphabet) x ~9.6k (quick) / ~100k (thorough) inert inputs enumerated exhaustively by class: no changed lines, identical lines()/cursor/dump, following char handled from ground, hidden state identical; bare Parser dispatches nothing and ends in Ground, also for all 785 700 control strings with payloads of up to 4 class-representative characters.",
        "Seeds in parser ground state; payload alphabet = class representatives.", "explicit-state BFS seeds x exhaustive inert-input enumeration, before/after differential oracle"),
 }
 claimed=sorted(T)
@@ -54,7 +54,7 @@ for p in props:
         t,n,tech=T[i]
         checks.append({"property_id":i,"quick_cmd":f"./check {i} quick","thorough_cmd":f"./check {i} thorough","evidence_file":f"/verif/evidence/{i}.json","replay_cmd_template":"./check --replay {path}","engine":"avtmc","level_claimed":{"category":"model_checking","text":t,"design_ref":f"DESIGN.md §4 {i}"},"level_note":n,"technique":tech})
 m={"version":1,"setup_cmd":"cd /verif/harness && CARGO_NET_OFFLINE=true cargo build --release --offline","hooks":{"guard":"cargo feature `verif` of the avt crate","enable":"harness/Cargo.toml depends on avt with features=[\"verif\"] (adds the read-only Vt::verif_state())","baseline_off_cmd":"cd /repo && cargo test --workspace --no-fail-fast --offline","source_commits":["69ec11d"],"add_only":True},
-"engines":[{"name":"avtmc","path":"/verif/harness","serves_properties":claimed,"kind_free_text":"custom level-synchronous parallel BFS over op histories of the real avt::Vt (states rebuilt by replay, dedup on a 128-bit fingerprint of the Debug rendering), with invariant / differential / reference-model oracles"}],
+"engines":[{"name":"avtmc-selfcheck","path":"/verif/selfcheck","serves_properties":[],"kind_free_text":"`./check selfcheck [depth]`: stateright 0.31 parallel BFS over the same transition system; its set of reachable implementation fingerprints must equal avtmc's (guards the engine, not a property)"},{"name":"avtmc","path":"/verif/harness","serves_properties":claimed,"kind_free_text":"custom level-synchronous parallel BFS over op histories of the real avt::Vt (states rebuilt by replay, dedup on a 128-bit fingerprint of the Debug rendering), with invariant / differential / reference-model oracles"}],
 "checks":checks,
 "notes":"See DESIGN.md. Genuine defects repaired in /repo as fix: commits 94874da (C19), fd7d59d (C05), 26980ca (C04), 3f030b4 (C18); recorded findings in known_findings.json.",
 "not_applicable":[{"property_id":p['id'],"reason":"check not built yet in this commit (planned, see DESIGN.md §4)"} for p in props if p['id'] not in T]}
